@@ -8,6 +8,8 @@ import (
 // Prelude is the JavaScript instrumentation library every printed program starts with. The host provides the
 // natives ev(tag, a, ints…), evv(tag, a, int, value), dres(a, id, iterResult), log(k, a) (returns k) and sink(…).
 // The interpreter (interp.go) implements exactly these functions natively; keep the two in step.
+// deep(n, f) only adds n call-stack levels (return() runs one level, callbacks two levels deeper than next()), so that
+// the call-stack-limit sweep can make exactly those calls overflow; it has no other observable effect.
 const Prelude = `var seq = 0;
 function mk(a, id, n, throwAt, badAt, retMode, pairs) {
   var inst = ++seq, j = 0;
@@ -24,19 +26,20 @@ function mk(a, id, n, throwAt, badAt, retMode, pairs) {
     }
   };
   it[Symbol.iterator] = function() { return this; };
-  if (retMode) it.return = function() {
+  if (retMode) it.return = function() { return deep(1, function() {
     if (retMode === 2) { ev("Rt", a, id, inst); throw 40000 + id; }
     if (retMode === 3) { ev("Rb", a, id, inst); return 7; }
     ev("Ro", a, id, inst);
     return {value: 50000 + id, done: true};
-  };
+  }); };
   return it;
 }
-function gen(a, k, gf) { var inst = ++seq; ev("G", a, k, inst); return gf(inst); }
-function mf(a, id, at) { var c = 0; return function(v) { if (++c === at) { ev("MF", a, id, c); throw 60000 + id; } return v; }; }
-function thrS(a, id, at) { var c = 0; return class extends Set { add(v) { if (++c === at) { ev("AD", a, id, c); throw 61000 + id; } return super.add(v); } }; }
-function thrM(a, id, at) { var c = 0; return class extends Map { set(k, v) { if (++c === at) { ev("AD", a, id, c); throw 61000 + id; } return super.set(k, v); } }; }
-function thrower(a, id) { return { set p(v) { ev("SX", a, id); throw 62000 + id; } }; }
+function deep(n, f) { return n > 0 ? deep(n - 1, f) : f(); }
+function gen(a, site, k, gf) { var inst = ++seq; ev("G", a, site, k, inst); return gf(inst); }
+function mf(a, id, at) { var c = 0; return function(v) { return deep(2, function() { if (++c === at) { ev("MF", a, id, c); throw 60000 + id; } return v; }); }; }
+function thrS(a, id, at) { var c = 0; return class extends Set { add(v) { deep(2, function() { if (++c === at) { ev("AD", a, id, c); throw 61000 + id; } }); return super.add(v); } }; }
+function thrM(a, id, at) { var c = 0; return class extends Map { set(k, v) { deep(2, function() { if (++c === at) { ev("AD", a, id, c); throw 61000 + id; } }); return super.set(k, v); } }; }
+function thrower(a, id) { return { set p(v) { deep(2, function() { ev("SX", a, id); throw 62000 + id; }); } }; }
 `
 
 // Mode of the printed program.
@@ -63,7 +66,7 @@ func (p *printer) linef(f string, a ...any) { p.line(fmt.Sprintf(f, a...)) }
 func iterSrc(n *Node) string {
 	it := n.Iter
 	if it.Gen > 0 {
-		return fmt.Sprintf("gen(a, %d, G%d)", it.Gen, it.Gen)
+		return fmt.Sprintf("gen(a, %d, %d, G%d)", n.ID, it.Gen, it.Gen)
 	}
 	pr := 0
 	if it.Pairs {
@@ -285,7 +288,7 @@ func (p *printer) stmt(n *Node, d int, labels string) {
 		p.linef("%syield %d;", labels, 20000+id)
 		p.linef(`var _ = ev("Y-", a, %d);`, id)
 	case GenNew:
-		p.linef("%svar g%d = gen(a, %d, G%d);", labels, n.Var, n.Gen, n.Gen)
+		p.linef("%svar g%d = gen(a, %d, %d, G%d);", labels, n.Var, id, n.Gen, n.Gen)
 	case GenOp:
 		m := [...]string{"next", "return", "throw"}[n.Op]
 		p.linef(`var _ = ev("D>", a, %d, %d);`, id, n.Op)
